@@ -32,7 +32,10 @@ type State struct {
 	W     io.Writer
 	N     int // events written
 	Quiet bool
-	enc   *json.Encoder
+	// NoAlloc disables the (process-wide) allocation measurement; set when
+	// several goroutines run calls at once.
+	NoAlloc bool
+	enc     *json.Encoder
 }
 
 func New(w io.Writer) *State {
@@ -130,6 +133,13 @@ var allocSample = []metrics.Sample{{Name: "/gc/heap/allocs:bytes"}}
 func allocNow() uint64 {
 	metrics.Read(allocSample)
 	return allocSample[0].Value.Uint64()
+}
+
+func (s *State) allocNow() uint64 {
+	if s.NoAlloc {
+		return 0
+	}
+	return allocNow()
 }
 
 func post(before V, x any) V {
@@ -325,9 +335,9 @@ func (s *State) UnmarshalFull(entry string, b, h, dh, eqh, eqb int) V {
 	in := append([]byte(nil), orig...)
 	p := NewOf(entry)
 	var err error
-	a0 := allocNow()
+	a0 := s.allocNow()
 	pan, msg := guarded(func() string { return fmt.Sprintf("unmarshal %s %v", entry, orig) }, func() { err = p.Unmarshal(in) })
-	alloc := allocNow() - a0
+	alloc := s.allocNow() - a0
 	var out any = none
 	if !pan && err == nil {
 		out = abs.Abs(p)
@@ -351,9 +361,9 @@ func (s *State) DatagramParts(b, h int, parts []int) V {
 	in := append([]byte(nil), orig...)
 	var ps []rtcp.Packet
 	var err error
-	a0 := allocNow()
+	a0 := s.allocNow()
 	pan, msg := guarded(func() string { return fmt.Sprintf("datagram %v", orig) }, func() { ps, err = rtcp.Unmarshal(in) })
-	alloc := allocNow() - a0
+	alloc := s.allocNow() - a0
 	out := L{}
 	if !pan {
 		out = abs.AbsList(ps)
@@ -378,7 +388,7 @@ func (s *State) UnitDecode(unit string, b int) V {
 	in := append([]byte(nil), orig...)
 	var err error
 	var out any = none
-	a0 := allocNow()
+	a0 := s.allocNow()
 	pan, msg := guarded(func() string { return fmt.Sprintf("udec %s %v", unit, orig) }, func() {
 		switch unit {
 		case "hdr":
@@ -420,7 +430,7 @@ func (s *State) UnitDecode(unit string, b int) V {
 			panic("exec: unknown unit " + unit)
 		}
 	})
-	alloc := allocNow() - a0
+	alloc := s.allocNow() - a0
 	if pan || err != nil {
 		out = none
 	}
